@@ -189,6 +189,20 @@ class Runner:
                     self.violations.append(v)
         return known
 
+    def inexact_to_violations(self, name="stored value differs from the exact rational"):
+        """(exact_compare) turn the values that the plain library stores differently from the exact rational of the
+        symbolic run into violations; the signature says where the value sits and how large the difference is"""
+        for ix in self.inexact:
+            diffs = ix["diffs"]
+            worst = max(abs(Fraction(a[1]) - (Fraction(float(b[1])) if b[0] == "f" else Fraction(b[1]))) for _, a, b in diffs)
+            isfloat = any(b[0] == "f" for _, a, b in diffs)
+            where = sorted({p.split("/")[1] for p, _, _ in diffs})
+            sig = {"name": "float in exact output"} if isfloat else {"name": "inexact rational", "difference_below_1e-10": bool(worst < Fraction(1, 10**10)), "crossing_parameter_inexact": "crossings" in where,
+                                                                             "segment_evaluation_inexact": bool({"v", "ders", "eval_tuple", "vals"} & set(where)), "_where": where,
+                                                                             "all_inputs_but_the_last_are_integers": all(Fraction(v).denominator == 1 for v in ix["env"][:-1])}
+            self.extra_violations.append(dict(name=name, env=ix["env"], spec=ix["spec"], reproduced=True, meta={},
+                                              text=f"{ix['spec']['scenario']} {ix['spec'].get('params')} at {ix['env']}: exact vs stored {diffs[:2]} (max difference {float(worst):.3g})", sig=sig))
+
     def finish(self, coverage_extra=None, assumptions=None, explanation=None):
         known = self.classify()
         os.makedirs(EVID, exist_ok=True)
